@@ -339,13 +339,25 @@ def demangle(names):
 def check(pid, tier, spec, seed=0, replay=None):
     t_start = time.time()
     outdir = os.path.join(OUT, pid); shutil.rmtree(outdir, ignore_errors=True); os.makedirs(outdir, exist_ok=True)
+    # quick tier: every job at its quick bound; all must be exhausted.
+    # thorough tier = iterative deepening: first the quick bounds again (must be exhausted, as above), then every job at its thorough
+    # bound ("<name>@deep", and the thorough-only jobs) within DEEP_BUDGET; a deep job that is not exhausted in time is reported as
+    # such - the claim then stays at the bound that was exhausted - and any violation met on the way counts.
     jobs = []
-    for j in spec['jobs']:
-        j = dict(j)
-        if 'tiers' in j and tier not in j['tiers']: continue
-        d = dict(j.get('defs', {})); d.update(j.get('defs_' + tier, {})); j['defs'] = d
-        j['budget'] = j.get('budget_' + tier, j.get('budget', 600 if tier == 'quick' else 3000))
-        jobs.append(j)
+    def mk(j0, which, deep, rename):
+        j = dict(j0); d = dict(j.get('defs', {})); d.update(j.get('defs_' + which, {})); j['defs'] = d
+        j['budget'] = j.get('budget_' + which, j.get('budget', 600 if which == 'quick' else DEEP_BUDGET))
+        j['base'] = j0['name']; j['deep'] = deep
+        if rename: j['name'] = j0['name'] + '@deep'
+        return j
+    for j0 in spec['jobs']:
+        tiers = j0.get('tiers'); in_quick = not tiers or 'quick' in tiers; in_thor = not tiers or 'thorough' in tiers
+        if tier == 'quick':
+            if in_quick: jobs.append(mk(j0, 'quick', False, False))
+        else:
+            if in_quick: jobs.append(mk(j0, 'quick', False, False))
+            differs = dict(j0.get('defs_quick', {})) != dict(j0.get('defs_thorough', {}))
+            if in_thor and (not in_quick or differs): jobs.append(mk(j0, 'thorough', True, in_quick))
     nproc = int(os.environ.get('VK_NPROC', '16'))
     # ---- build (parallel)
     import concurrent.futures as cf
@@ -377,10 +389,13 @@ def check(pid, tier, spec, seed=0, replay=None):
             bjobs = [j for j in jobs if j.get('engine', 'B') == 'B']
             ajobs = [j for j in jobs if j.get('engine', 'B') == 'A']
             afuts = {ex.submit(run_cbmc, builds[(j['tu'], tuple(sorted(j['defs'].items())))], j, outdir): j for j in ajobs}
-            deadline = time.time() + max([j['budget'] for j in bjobs] or [0])
-            bres = sched.run_jobs([{'ll': builds[(j['tu'], tuple(sorted(j['defs'].items())))], 'entry': j['entry'], 'samples': j.get('samples', 12 if tier == 'quick' else 40),
-                                    'max_insns': j.get('max_insns', 3_000_000)} for j in bjobs], deadline)
-            for j, r in zip(bjobs, bres): results[j['name']] = r
+            for phase in (False, True):
+                pj = [j for j in bjobs if j['deep'] == phase]
+                if not pj: continue
+                deadline = time.time() + max(j['budget'] for j in pj)
+                bres = sched.run_jobs([{'ll': builds[(j['tu'], tuple(sorted(j['defs'].items())))], 'entry': j['entry'], 'samples': j.get('samples', 12 if tier == 'quick' else 40),
+                                        'max_insns': j.get('max_insns', 3_000_000)} for j in pj], deadline)
+                for j, r in zip(pj, bres): results[j['name']] = r
             for f in cf.as_completed(list(afuts)):
                 j = afuts[f]
                 try: results[j['name']] = f.result()
@@ -399,7 +414,7 @@ def check(pid, tier, spec, seed=0, replay=None):
     for j in jobs:
         r = results[j['name']]
         rep = {'job': j['name'], 'engine': j.get('engine', 'B'), 'entry': j['entry'], 'tu': j['tu'], 'bounds': j['defs'], 'status': r['status'], 'error': r.get('error'),
-               'violations': [], 'known': [], 'validated': 0, 'validation_mismatch': [], 'missing_reach': [], 'twin': j.get('twin')}
+               'violations': [], 'known': [], 'validated': 0, 'validation_mismatch': [], 'missing_reach': [], 'twin': j.get('twin'), 'deep': bool(j.get('deep')), 'base': j.get('base', j['name'])}
         key = (j['tu'], tuple(sorted(j['defs'].items())), bool(j.get('clock')))
         exe = natives.get(key)
         if rep['engine'] == 'B' and r['status'] in ('done', 'timeout'):
@@ -444,7 +459,7 @@ def check(pid, tier, spec, seed=0, replay=None):
                     vr['inputs_file'] = f
                 json.dump({'property': pid, 'job': j['name'], 'entry': j['entry'], 'tu': j['tu'], 'defs': j['defs'], 'violation': vr, 'inputs': v.get('inputs'), 'events': v.get('events')}, open(cex, 'w'), indent=1, default=str)
                 vr['replay'] = cex
-                k = match_known(known, pid, j['name'], v['msg'], vr['where'])
+                k = match_known(known, pid, j['base'], v['msg'], vr['where'])
                 if k: vr['known'] = k['text'] or k['assert']; rep['known'].append(vr)
                 else: rep['violations'].append(vr)
         elif rep['engine'] == 'A' and r['status'] == 'done':
@@ -453,7 +468,7 @@ def check(pid, tier, spec, seed=0, replay=None):
                 vr = {'msg': 'cbmc: %s (%s)' % (f['description'], f['property']), 'kind': 'cbmc', 'inputs': f['inputs'][:64], 'reproduced': None, 'where': []}
                 cex = os.path.join(outdir, 'cex-%s-%d.json' % (j['name'], n)); json.dump({'property': pid, 'job': j['name'], 'violation': vr}, open(cex, 'w'), indent=1, default=str)
                 vr['replay'] = cex
-                k = match_known(known, pid, j['name'], vr['msg'], [])
+                k = match_known(known, pid, j['base'], vr['msg'], [])
                 if k: vr['known'] = k['text']; rep['known'].append(vr)
                 else: rep['violations'].append(vr)
         reports.append(rep)
@@ -461,11 +476,15 @@ def check(pid, tier, spec, seed=0, replay=None):
 
 def finish(pid, tier, seed, spec, reports, t_start, fatal=None, build_s=0.0):
     wall = time.time() - t_start
-    viol = []; known = []; broken = []
+    viol = []; known = []; broken = []; notes = []
     if fatal: broken.append(fatal)
     for rep in reports:
         if rep.get('incomplete') and not rep['violations'] and not rep['known']: broken.append('%s: exploration incomplete: %s' % (rep['job'], rep['incomplete'][0]))
-        if rep['status'] != 'done': broken.append('%s: %s %s' % (rep['job'], rep['status'], rep.get('error') or ''))
+        if rep.get('deep') and rep['status'] == 'timeout':
+            # deepening step not exhausted within its budget: reported, not claimed; what was explored still counts for violations
+            notes.append('%s: bound %s not exhausted within the budget (%s paths explored, no verdict claimed at this bound)' % (rep['job'], json.dumps(rep['bounds']), rep.get('paths', '-')))
+            rep['status'] = 'not-exhausted'; rep['missing_reach'] = []
+        elif rep['status'] != 'done': broken.append('%s: %s %s' % (rep['job'], rep['status'], rep.get('error') or ''))
         if rep['missing_reach']: broken.append('%s: vacuity: labels never reached: %s' % (rep['job'], rep['missing_reach']))
         if rep['validation_mismatch']: broken.append('%s: engine/native mismatch on %d sampled paths (first: %s)' % (rep['job'], len(rep['validation_mismatch']), json.dumps(rep['validation_mismatch'][0])[:1500]))
         for v in rep['violations']:
@@ -495,7 +514,7 @@ def finish(pid, tier, seed, spec, reports, t_start, fatal=None, build_s=0.0):
                        'jobs': [{k: v for k, v in r.items() if k not in ('function_names', 'samples')} for r in reports],
                        'functions_encoded': sorted(set(n for r in reports for n in r.get('function_names', []) if 'mqtt5' in n))[:400],
                        'functions_encoded_total': len(set(n for r in reports for n in r.get('function_names', []))),
-                       'build_seconds': round(build_s, 1), 'broken': broken},
+                       'build_seconds': round(build_s, 1), 'broken': broken, 'deepening_not_exhausted': notes},
           'assumptions': spec.get('assumptions', []) + COMMON_ASSUMPTIONS,
           'wall_s': round(wall, 2), 'violations': len(viol)}
     os.makedirs(os.path.join(VERIF, 'evidence'), exist_ok=True)
@@ -512,12 +531,15 @@ def finish(pid, tier, seed, spec, reports, t_start, fatal=None, build_s=0.0):
     for rep, v in viol:
         print('VIOLATION property=%s replay=%s' % (pid, v['replay']))
         log('  %s: %s' % (rep['job'], v['msg']))
+    for n in notes: log('NOTE: ' + n[:600])
     if broken:
         for b in broken: log('BROKEN: ' + b[:3000])
     sys.stdout.flush()
     if viol: return 1
     if broken: return 2
     return 0
+
+DEEP_BUDGET = int(os.environ.get('VK_DEEP_BUDGET', '1500'))
 
 COMMON_ASSUMPTIONS = [
     'bounded claim: only the input sizes / event counts listed under coverage.bounds are covered; nothing is claimed beyond them',
